@@ -310,6 +310,15 @@ def c02_cases(tier, seed):
             o, c = ("<%s>" % host, "</%s>" % host)
             src = gen.PRELUDE + "const v = %s%s{x}%s<i/>{}%s;\n" % (o, t1, t2, c)
             run.append({"id": "p%d" % len(run), "src": src, "tsx": False, "opts": {"optimize": bool(i % 2)}})
+    # whole pipeline, exhaustive: every string over the whitespace alphabet as a JSX text child (what transform_jsx_text and its
+    # callers do with it, not only util::transform_text)
+    n_pipe = budget(tier, 3, 4, 4)
+    pipe_alpha = [" ", "\n", "\r", "\u00a0", "\u2003", "\u3000", "a", "\t"]
+    for s_ in strings_upto(pipe_alpha, n_pipe):
+        if not s_:
+            continue
+        for shape in ["<div>%s</div>", "<Comp>{x}%s{y}</Comp>", "<>%s<i/></>"]:
+            run.append({"id": "w%d" % len(run), "src": gen.PRELUDE + "const v = " + (shape % s_) + ";\n", "tsx": False, "opts": {}})
     n_mod = budget(tier, 1500, 40000)
     for i in range(n_mod):
         g = gen.Gen(r, {"children": {"text": 8, "expr": 3, "ident": 2, "call": 1, "empty": 2, "comment": 1, "spread": 2,
@@ -321,8 +330,8 @@ def c02_cases(tier, seed):
         run.append({"id": "m%d" % i, "src": src, "tsx": False, "opts": gen.opts_random(r)})
     return unit, run, {
         "rule": "unit: ALL strings of length <= %d over {space, tab, LF, CR, NBSP, U+2003, a, b} through the hook verif_hooks::transform_text "
-                "+ %d random strings (also CRLF, U+2028, U+3000, entities' targets); pipeline: fixtures + text x text x host products + %d generated modules; "
-                "non-trivial = the implementation produced vnode calls; distinct = distinct (source, options) / distinct string" % (n_exh, n_rand, n_mod),
+                "+ %d random strings (also CRLF, U+2028, U+3000, entities' targets); pipeline: fixtures + text x text x host products + ALL strings of length <= %d over {space, LF, CR, NBSP, U+2003, U+3000, a, tab} as a text child in 3 positions + %d generated modules; "
+                "non-trivial = the implementation produced vnode calls; distinct = distinct (source, options) / distinct string" % (n_exh, n_rand, n_pipe, n_mod),
         "exhaustive": True,
         "exhaustive_part": "strings of length <= %d over the 8-symbol alphabet (unit correspondence of transform_text)" % n_exh,
         "histogram": dict(hist.most_common(40))}
@@ -540,6 +549,18 @@ def c12_cases(tier, seed):
         ob = dict(oa); ob["optimize"] = False
         a = dict(c, id=c["id"] + ":opt", opts=oa); b = dict(c, id=c["id"] + ":noopt", opts=ob)
         run += [a, b]; pairs.append({"id": c["id"], "mode": "c12", "a": a["id"], "b": b["id"]})
+    # a sole child behind every syntactic wrapper (parentheses, sequence, TS non-null / as / satisfies / angle-free casts)
+    wi = 0
+    for host in ["Comp", "div", "NS.Item", "KeepAlive", ""]:
+        for wrap in ["(%s)", "((%s))", "%s!", "%s as any", "(%s as any)", "%s satisfies object", "(0, %s)", "%s!!", "<any>%s" if False else "(%s)!"]:
+            for inner in ["val", "f()", "() => 1", "{ default: () => 1 }", "obj.a", "slotsObj", "undefined"]:
+                for eos in (True, False):
+                    wi += 1
+                    oc = ("<%s>" % host, "</%s>" % host)
+                    src = gen.PRELUDE + "const v = %s{%s}%s;\n" % (oc[0], wrap % inner, oc[1])
+                    oa = {"optimize": True, "enableObjectSlots": eos}; ob = dict(oa, optimize=False)
+                    a = {"id": "wr%d:opt" % wi, "src": src, "tsx": True, "opts": oa}; b = {"id": "wr%d:noopt" % wi, "src": src, "tsx": True, "opts": ob}
+                    run += [a, b]; pairs.append({"id": "wr%d" % wi, "mode": "c12", "a": a["id"], "b": b["id"]})
     def base(rr):
         o = std_opts(rr); o["optimize"] = True; return o
     hist = collections.Counter()
@@ -548,7 +569,7 @@ def c12_cases(tier, seed):
         for p in pp:
             p["mode"] = "c12"
         run += rr; pairs += pp; hist.update(hh)
-    return [], run, {"rule": "every fixture and %d generated modules (general, component/slots-heavy, v-model-heavy, attribute-heavy grammars; random settings of the other options incl. pragma and customElementPatterns) are run through the REAL visitor under optimize=true and optimize=false; the oracle erases arguments 4-5 of vnode calls and the trailing `_` entry of slot objects from the optimize=true output and requires equality (modulo renaming of generated identifiers)" % (len(pairs)),
+    return [], run, {"rule": "every fixture, 5 hosts x 9 syntactic wrappers of a sole child (parentheses, sequence, TS non-null, as, satisfies) x 7 inner expressions x enableObjectSlots, and %d generated modules (general, component/slots-heavy, v-model-heavy, attribute-heavy grammars; random settings of the other options incl. pragma and customElementPatterns) are run through the REAL visitor under optimize=true and optimize=false; the oracle erases arguments 4-5 of vnode calls and the trailing `_` entry of slot objects from the optimize=true output and requires equality (modulo renaming of generated identifiers)" % (len(pairs)),
                      "pairs": pairs, "histogram": dict(hist.most_common(40))}
 
 
@@ -557,7 +578,8 @@ PROPS_PROFILES = {
             "attr_names": {"plain": 6, "class": 3, "style": 2, "key": 1, "ref": 1, "onClick": 2, "on": 2, "ns": 1, "onUpdate": 1, "model-like": 1, "on-obj": 2}},
     "C03": {"tags": {"bound": 5, "unbound": 3, "member": 2, "this": 1, "html": 2, "KeepAlive": 1, "Fragment": 1, "_Fragment": 1, "custom": 1},
             "w_directive": 1, "directives": {"slots": 5, "show": 1, "custom": 1},
-            "children": {"text": 3, "expr": 3, "ident": 5, "call": 5, "empty": 1, "comment": 1, "spread": 1, "element": 4, "fragment": 1, "fn": 2, "objlit": 2},
+            "children": {"text": 3, "expr": 3, "ident": 5, "call": 5, "empty": 1, "comment": 1, "spread": 1, "element": 4, "fragment": 1, "fn": 2, "objlit": 2,
+                         "wrapped": 3, "member": 2},
             "n_children": [(0, 2), (1, 8), (2, 2), (3, 1)]},
     "C05": {"tags": {"html": 6, "bound": 4, "unbound": 2, "member": 1, "custom": 1}, "w_directive": 6,
             "directives": {"model": 8, "models": 3, "show": 1, "custom": 1}},
@@ -830,6 +852,12 @@ RT_CALLS = ["defineComponent((props: { label: string }) => () => h('button', pro
             "defineComponent(function Named(props: { b: boolean } = { b: true }) {})"]
 
 
+C09_TEMP_JSX = ["const h = <Comp>{f()}</Comp>;", "val = 1; const h2 = <Comp>{val}</Comp>;", "(<Foo>{obj.render()}</Foo>);", "const h3 = <><Comp>{f()}</Comp><Foo>{fn1()}</Foo></>;"]
+C09_NEIGHBOURS = ["const double = (x) => x * 2;", "list.map((i) => i + 1);", "const o2 = { m: (a) => a, n() { return (b) => b; } };",
+                  "function later(cb = (z) => z) { return () => cb; }", "class L { f = (q) => q; static g = () => 1; }", "const e2 = async (w) => await w;",
+                  "const nested = () => () => () => 3;", "label: for (const i of list) { out.push(() => i); }", "const t2 = cond ? (a) => a : (b) => ({ b });"]
+
+
 def c09_cases(tier, seed):
     r = gen.Rng(seed)
     run = corpus_cases("C09")
@@ -863,12 +891,21 @@ def c09_cases(tier, seed):
                 n_rt += 1
                 src = imp + "\n" + sh.replace("CALL", call) + "\n"
                 run.append({"id": "rt%d" % n_rt, "src": src, "tsx": True, "opts": {"resolveType": True, "optimize": bool(n_rt % 2)}})
+    # JSX that leaves a temporary pending for its scope, next to JSX-free code of every arrow/function shape
+    n_tmp = 0
+    for tj in C09_TEMP_JSX:
+        for other in C09_NEIGHBOURS:
+            for scope in ["%s", "function scope1() {\n%s\n}", "{\n%s\n}", "const scope2 = () => {\n%s\n};", "class S3 { m() {\n%s\n} }"]:
+                for order in (0, 1):
+                    n_tmp += 1
+                    body = (tj + "\n" + other) if order == 0 else (other + "\n" + tj)
+                    run.append({"id": "tmp%d" % n_tmp, "src": gen.PRELUDE + (scope % body) + "\n", "tsx": False, "opts": {"optimize": bool(n_tmp % 2)}})
     # generated JSX-free modules
     for i in range(budget(tier, 300, 8000)):
         g = gen.Gen(r, {"jsx_in_expr": 0})
         parts = [gen.PRELUDE] + [r.pick(SURROUND) % g.expr(0, allow_jsx=False) for _ in range(1 + r.below(4))]
         run.append({"id": "f%d" % i, "src": "\n".join(parts) + "\n", "tsx": False, "opts": std_opts(r)})
-    return [], run, {"rule": "JSX-free corpus of %d real files on disk (the 81 fixture outputs, the repo's wasm.test.ts, SWC's runtime helper modules and stateright's UI script from the cargo registry) under 4 option sets; fixtures; %d modules with JSX embedded in try/catch, labelled blocks, switch, classes with fields/accessors/static blocks, object methods, generators, destructuring, default parameters, optional chaining, TS interfaces/enums/namespaces/generics; %d modules with resolveType on in which a parameter, inner function, inner const, class member, loop or catch binding, object method or another module's export is merely NAMED defineComponent (x 5 import situations x 3 typed setup functions); generated JSX-free modules; and EVERY output of the first phase is fed back as input (idempotence)" % (len(corpus), n, n_rt),
+    return [], run, {"rule": "JSX-free corpus of %d real files on disk (the 81 fixture outputs, the repo's wasm.test.ts, SWC's runtime helper modules and stateright's UI script from the cargo registry) under 4 option sets; fixtures; %d modules with JSX embedded in try/catch, labelled blocks, switch, classes with fields/accessors/static blocks, object methods, generators, destructuring, default parameters, optional chaining, TS interfaces/enums/namespaces/generics; %d modules with resolveType on in which a parameter, inner function, inner const, class member, loop or catch binding, object method or another module's export is merely NAMED defineComponent (x 5 import situations x 3 typed setup functions); 4 JSX statements that leave a temporary pending x 9 JSX-free neighbours (concise arrows in every position) x 5 scopes x both orders; generated JSX-free modules; and EVERY output of the first phase is fed back as input (idempotence)" % (len(corpus), n, n_rt),
                      "histogram": dict(hist.most_common(30))}
 
 
